@@ -74,7 +74,8 @@ func c15Body(x *mc.Exec) {
 		}
 		t := j.Type{Name: tn, Attrs: map[string]j.Attr{}, Rels: map[string]j.Rel{}}
 		slots := []string{"x", "y"}
-		if len(typeNames) == 3 && ti == 2 {
+		if len(typeNames) == 3 && ti >= 1 {
+			// three types: a has two slots, b and d one each (37^4 schemas)
 			slots = []string{"x"}
 		}
 		for _, name := range slots {
@@ -326,12 +327,104 @@ func c15Names(x *mc.Exec) {
 	}
 }
 
+// c15Large: schemas of 2..40 types (beyond any small-schema fast path): a ring of
+// two-way pairs, a chain of one-way relationships, or a star whose leaves have no
+// relationships at all (nil or empty map); consistent, or with one dangling /
+// unreciprocated relationship placed at the first, a middle or the last type.
+func c15Large(x *mc.Exec) {
+	sizes := []int{2, 3, 15, 16, 17, 18, 32, 33, 40}
+	n := sizes[x.Choose(len(sizes), "types")]
+	shape := x.Choose(4, "shape")
+	defect := x.Choose(3, "defect")
+	pos := []int{0, n / 2, n - 1}[x.Choose(3, "position")]
+	name := func(i int) string { return fmt.Sprintf("t%02d", (i%n+n)%n) }
+	types := make([]j.Type, n)
+	for i := range types {
+		types[i] = j.Type{Name: name(i), Attrs: map[string]j.Attr{}, Rels: map[string]j.Rel{}}
+	}
+	switch shape {
+	case 0: // ring of two-way pairs: ti.next <-> t(i+1).prev
+		for i := range types {
+			types[i].Rels["next"] = j.Rel{FromType: name(i), FromName: "next", ToOne: true, ToType: name(i + 1), ToName: "prev", FromOne: true}
+			types[i].Rels["prev"] = j.Rel{FromType: name(i), FromName: "prev", ToOne: true, ToType: name(i - 1), ToName: "next", FromOne: true}
+		}
+	case 1: // chain of one-way relationships
+		for i := 0; i < n-1; i++ {
+			types[i].Rels["next"] = j.Rel{FromType: name(i), FromName: "next", ToType: name(i + 1)}
+		}
+	case 2, 3: // star: t00 points at every other type; the leaves declare no relationships
+		for i := 1; i < n; i++ {
+			r := fmt.Sprintf("r%02d", i)
+			types[0].Rels[r] = j.Rel{FromType: name(0), FromName: r, ToType: name(i)}
+			if shape == 2 {
+				types[i].Rels = nil
+			}
+		}
+	}
+	offenders := 0
+	switch defect {
+	case 1: // a target that does not exist
+		for _, k := range SortedKeys(types[pos].Rels) {
+			r := types[pos].Rels[k]
+			r.ToType = "missing"
+			types[pos].Rels[k] = r
+			offenders++
+			// the former partner (ring) now names an inverse that no longer names it back
+			if shape == 0 {
+				offenders++
+			}
+			break
+		}
+	case 2: // an inverse name that nothing reciprocates
+		for _, k := range SortedKeys(types[pos].Rels) {
+			r := types[pos].Rels[k]
+			r.ToName = "nobody"
+			types[pos].Rels[k] = r
+			offenders++
+			if shape == 0 {
+				offenders++
+			}
+			break
+		}
+	}
+	if offenders > 0 && len(types[pos].Rels) == 0 {
+		offenders = 0
+	}
+	s := &j.Schema{}
+	for _, t := range types {
+		if err := s.AddType(t); err != nil {
+			panic(err)
+		}
+	}
+	desc := fmt.Sprintf("%d types, shape %s, defect %s at %s", n, []string{"ring of two-way pairs", "one-way chain", "star with nil-Rels leaves", "star with empty-Rels leaves"}[shape],
+		[]string{"none", "missing target", "unreciprocated inverse"}[defect], name(pos))
+	x.Render(desc)
+	x.R.Sample("large", desc)
+	x.R.Mark("nontrivial", mc.Hash(desc))
+	before := mc.Snap(s)
+	var errs []error
+	p := Try(func() { errs = s.Check() })
+	x.R.Add("transitions", 1)
+	x.Observe(desc, len(errs), p)
+	switch {
+	case p != "":
+		x.Fail("C15:large:panic", "Check panicked on %s: %s", desc, p)
+	case offenders == 0 && len(errs) != 0:
+		x.Fail("C15:large:false-positive", "schema (%s) has no offending relationship but Check reports %v", desc, errs)
+	case len(errs) < offenders:
+		x.Fail("C15:large:missed", "schema (%s) has %d offending relationship(s) but Check reports %d: %v", desc, offenders, len(errs), errs)
+	}
+	if mc.Snap(s) != before {
+		x.Fail("C15:large:modified-schema", "Check modified the schema (%s)", desc)
+	}
+}
+
 func init() {
 	Register(&Prop{
 		ID: "C15",
-		Rule: "Engine A: ALL schemas over types {a,b} (type c always missing; thorough adds a third type d): per type two relationship slots x,y, each absent or target{a,b,c} x inverse{\"\",x,y} x FromType{owner,other,empty} (28 options per slot, 28^4 + smaller type sets), both type orders, relationships stored under their names or under unrelated map keys; the iteration order of every map loop instance inside Check is a deviation-bounded choice (bound 1). plus every history of 4 (thorough 5) schema edits (incl. edits that break and repair coherence) with Check() called after every subset of them, the final verdict compared with an equal schema built in one go. plus ALL schemas of three types a, x, x<sep>x each with at most one relationship named p, q or x<sep>q towards any of them with inverse name in {none, p, q, x<sep>q}, for 6 separators (names whose joined strings coincide). Oracle: independent offender count; Check()==[] iff no offender, len(Check()) >= offenders, no panic, deep snapshot of the schema unchanged. Non-trivial = schema with some but not all relationships offending",
+		Rule: "Engine A: ALL schemas over types {a,b} (type c always missing; thorough adds a third type d, then with slots a.x, a.y, b.x, d.x): per type two relationship slots x,y, each absent or target{a,b,c} x inverse{\"\",x,y} x FromType{owner,other,empty} (28 options per slot, 28^4 + smaller type sets), both type orders, relationships stored under their names or under unrelated map keys; the iteration order of every map loop instance inside Check is a deviation-bounded choice (bound 1). plus every history of 4 (thorough 5) schema edits (incl. edits that break and repair coherence) with Check() called after every subset of them, the final verdict compared with an equal schema built in one go. plus ALL schemas of three types a, x, x<sep>x each with at most one relationship named p, q or x<sep>q towards any of them with inverse name in {none, p, q, x<sep>q}, for 6 separators (names whose joined strings coincide). plus schemas of 2..40 types (ring of two-way pairs, one-way chain, star with nil- / empty-Rels leaves) x {consistent, missing target, unreciprocated inverse} at the first, a middle and the last type. Oracle: independent offender count; Check()==[] iff no offender, len(Check()) >= offenders, no panic, deep snapshot of the schema unchanged. Non-trivial = schema with some but not all relationships offending",
 		Assumptions: []string{"'names it back' is the pair-of-names test of the statement; whether the inverse also points at the owning type is not demanded (weaker reading)"},
 		Harnesses: []Harness{{Name: "C15/all-schemas", Body: c15Body, ShardDepth: 3, Dev: func() int { return 1 }},
-			{Name: "C15/incremental", Body: c15Incremental}, {Name: "C15/names", Body: c15Names}},
+			{Name: "C15/incremental", Body: c15Incremental}, {Name: "C15/names", Body: c15Names}, {Name: "C15/large", Body: c15Large}},
 	})
 }
